@@ -72,6 +72,9 @@ func minimize(src string) (string, rtResult) {
 		})
 		sort.SliceStable(cands, func(i, j int) bool { return len(cands[i].src) < len(cands[j].src) })
 		improved := false
+		if len(cands) > 600 {
+			cands = cands[:600]
+		}
 		for _, c := range cands {
 			if len(c.src) >= len(best) {
 				break
